@@ -119,7 +119,7 @@ def _tcp_server(mode, offset):
         dev = TelnetDev()
 
         def drop():
-            if mode == "rst":
+            if mode in ("rst", "rstnow"):
                 c.setsockopt(socket.SOL_SOCKET, socket.SO_LINGER, struct.pack("ii", 1, 0))
             else:
                 c.settimeout(0.3)
@@ -142,9 +142,14 @@ def _tcp_server(mode, offset):
             if offset > sent:
                 c.sendall(b[:offset - sent])      # the last bytes before the drop: possibly IAC, or IAC + verb
                 sent = offset
-                time.sleep(0.05)                  # let them arrive on their own before the FIN / RST
+                if mode != "rstnow":
+                    time.sleep(0.05)              # let them arrive on their own before the FIN / RST
+            # mode rstnow: the RST follows the last bytes at once — the client still receives the queued bytes (possibly complete
+            # negotiation commands) and finds the connection reset when it sends the replies it owes
             drop()
             return False
+        if mode == "rstnow":
+            time.sleep(0.3)        # let the client get blocked in its first recv(): the bytes and the RST then reach it together
         if not emit(dev.connect()):
             return
         while True:
@@ -340,9 +345,13 @@ def stream_worker(spec):
     for idx, case in spec["cases"]:
         t, o, n = case[:3]
         lock = bool(len(case) > 3 and case[3])      # channel_lock=True with the REAL threading / asyncio lock and the real timeout mechanism
+        replyk = case[4] if len(case) > 4 else None  # the peer resets / closes when the k-th negotiation reply is sent (replies still owed)
         print(json.dumps({"start": idx}), flush=True)
         link = L.Link(t, device=TelnetDev(), after="same")
-        link.byte_fault = (n, o)
+        if replyk is None:
+            link.byte_fault = (n, o)
+        else:
+            link.reply_fault = (replyk, o)
         ops = []
         with L.patched(link):
             conn = L.make_real_conn(t, link, timeout_ops=spec.get("timeout_ops", 2.0), wire=False, auth_bypass=False, auth_username="u", auth_password="pw",
@@ -480,6 +489,10 @@ def specs(repo):
         for mode in ("fin", "rst"):
             for n in list(range(0, ntel + 1)) + [ntel + 40]:     # every byte offset of the session, also inside the IAC commands
                 out.append({"rig": rig, "mode": mode, "offset": n, "repo": repo})
+        # reset while option replies are still owed: RST right behind the bytes, at every command end and every 3rd offset
+        ends = sorted({x + 1 for x in iac_offsets()[1::2]} | set(range(0, ntel + 1, 3)))
+        for n in ends:
+            out.append({"rig": rig, "mode": "rstnow", "offset": n, "repo": repo})
     for rig in ("paramiko", "asyncssh"):
         for mode in ("abort", "close", "exit"):
             for n in (0, 1, 3, 4, 10, 16, 17, 18, 25, 40, 47, 48, 52, 70):
